@@ -31,12 +31,12 @@ import (
 
 // Scenario is one generated case.
 type Scenario struct {
-	Addrs   int    `json:"addrs"`   // 1..3 addresses a0..a2
+	Addrs int `json:"addrs"` // 1..3 addresses a0..a2
 	// Names: templates of the address spellings (names.go); empty: a0, a1, ...
 	// The history names an address by its index (a0, a1, ...) whatever its spelling.
 	Names   []string `json:"names,omitempty"`
-	Threads int    `json:"threads"` // 2..8 requester threads (a thread has at most one Connection call outstanding)
-	Steps   []Step `json:"steps"`
+	Threads int      `json:"threads"` // 2..8 requester threads (a thread has at most one Connection call outstanding)
+	Steps   []Step   `json:"steps"`
 }
 
 // Step kinds (all indices are taken modulo the number of candidates that exist
